@@ -73,6 +73,7 @@ def run_case(seed, tier, rec, st):
     try:
         tg = TypeGen(fam, rng, dc_config_fn=config_fn, allow_pattern=False, allow_any=True, mixins=("DataClassDictMixin",))
         tg.allow_self = False
+        tg.allow_stype = False       # a SerializableType without annotations has no schema
         tg.lit_conflate = True       # Literal[0, False] / Literal[1, True]: equal for Python, distinct for JSON
         kind = rng.random()
         facts = {"kind": "grammar"}
